@@ -122,6 +122,9 @@ def check(P, rep):
                           'sol field %s.%s is built from exactly one field of variant %s' % (sname, gname, sname), entry_id(g), str(sorted(srcs)))
                 if len(srcs) == 1:
                     m[gname] = list(srcs)[0][1]
+                    rep.check(enc_shape_ok(gname, t, level), 'C10.R3', 'encode:%s.%s:conversion' % (sname, gname),
+                              'sol field %s.%s is the identity conversion of its source (bytes/array as is, string via UTF-8 copy, amount via try_into, '
+                              'optional bytes via empty-for-None)' % (sname, gname), entry_id(g), fmt(t)[:240])
             enc_maps[sname] = m
             # R5 encode side / R8
             if 'amount' in f:
@@ -167,6 +170,9 @@ def check(P, rep):
                           'Rust field %s.%s is built from exactly one field of sol struct %s decoded from the payload' % (vname, fname, vname), entry_id(g), str(sorted(srcs)))
                 if len(srcs) == 1:
                     m[fname] = list(srcs)[0][1]
+                    rep.check(dec_shape_ok(fname, t, level), 'C10.R3', 'decode:%s.%s:conversion' % (vname, fname),
+                              'Rust field %s.%s is the identity conversion of its sol field (bytes/array as is, string via from_str, amount via the '
+                              'range-checked low half, optional bytes via None-for-empty)' % (vname, fname), entry_id(g), fmt(t)[:240])
             dec_maps[vname] = m
         # dispatch: each struct decode lies behind type == its tag, and behind the length guard
         lens = guard_sel(g, lambda c_: c_[0] == 'cmp' and c_[1] == 'le' and const_int(core(c_[2])) == 32 and core(c_[3])[0] == 'call' and core(c_[3])[1].endswith('[u8]>::len')
@@ -257,6 +263,49 @@ def check(P, rep):
         spec_fields = [n for n, _ in SPEC_STRUCTS[s] if n != 'messageType']
         rep.check(inv == d and sorted(e) == sorted(spec_fields) and len(inv) == len(e), 'C10.R3', 'bijection:' + s,
                   'encode (Rust->sol) and decode (sol->Rust) field maps of %s are mutually inverse and total' % s, CN, 'encode %s ; decode %s' % (e, d))
+
+
+def _src_ref(t):
+    """t is a direct reference to a source field: field of payload($self) (encode) or field of a decoded struct (decode)"""
+    t = core(t)
+    if t[0] == 'field' and (t[2][0] == 'payload' or decode_call(t[2]) is not None):
+        return True
+    if t[0] == 'payload' and t[3] == ('param', 'self'):
+        return True
+    return False
+
+
+def enc_shape_ok(gname, t, level):
+    c = core(t)
+    if gname == 'tokenId':
+        return c[0] == 'call' and c[1].endswith('FixedBytes::<32>::new') and _src_ref(c[2][0])
+    if gname == 'amount':
+        return c[0] == 'call' and 'TryInto<alloy_primitives::Uint<256, 4>>>::try_into' in c[1] and _src_ref(c[2][0])
+    if gname in ('data', 'minter'):
+        x = opt_bytes(t)
+        return x not in (None, 'EMPTY') and _src_ref(x)
+    if gname in ('name', 'symbol', 'destination_chain', 'source_chain'):
+        x = std_string_of(t)
+        return x is not None and _src_ref(x)
+    if gname == 'message' and level == 'hub':
+        # bytes of the inner message's own ABI encoding
+        return find(t, lambda s: sol_struct(s) is not None) is not None
+    return _src_ref(c)
+
+
+def dec_shape_ok(fname, t, level):
+    c = core(t)
+    if fname == 'amount':
+        return is_half(t, 'RangeTo')
+    if fname in ('data', 'minter'):
+        al = alts(t)
+        somes = [a for a in al if variant_name(a) == 'Some']
+        return len(al) == 2 and len(somes) == 1 and _src_ref(somes[0][3][0])
+    if fname in ('name', 'symbol', 'destination_chain', 'source_chain'):
+        return c[0] == 'call' and c[1].endswith('soroban_sdk::String::from_str') and _src_ref(c[2][1])
+    if fname == 'message' and level == 'hub':
+        return find(t, lambda s: s[0] == 'variant' and s[1].endswith('types::Message')) is not None
+    return _src_ref(c)
 
 
 def is_half(t, which):
